@@ -286,3 +286,101 @@ def x9_groupby_runs(I, n, env):
 
 SPEC_NS["gsum"] = s_gsum
 AXIOM_SETS["gsum"] = axioms_gsum
+
+
+# ------------------------------------------------------------------------------------------------
+# abstract values: deepcopy, truth constants, order axioms (E1/E2 are used only where a contract says so)
+
+def _V():
+    return Val()
+
+
+def s_deepcopy(I, v):
+    f = z3.Function("deepcopy_Val", _V(), _V())
+    return SV(f(val_term(I, v)), Abs("Val"))
+
+
+def _cmpf(name):
+    return z3.Function(f"{name}_Val", _V(), _V(), _V())
+
+
+def _tr():
+    return z3.Function("truthy_Val", _V(), z3.BoolSort())
+
+
+def axioms_val():
+    """Python's True/False as abstract values."""
+    V = _V()
+    x = z3.Const("vx!x", V)
+    dc = z3.Function("deepcopy_Val", V, V)
+    und = z3.Const("undefined_Val", V)
+    return [_tr()(z3.Const("TrueVal", V)), z3.Not(_tr()(z3.Const("FalseVal", V))),
+            z3.Not(_tr()(z3.Const("NoneVal", V))),
+            # X14: a deep copy of a value is never the `...` sentinel unless the value is
+            z3.ForAll([x], (dc(x) == und) == (x == und), patterns=[dc(x)])]
+
+
+def axioms_E2():
+    """E2 (property scope 'totally ordered values'): <= is a total preorder, >= its converse,
+    and (E1, copy part) a deep copy compares like the original."""
+    V = _V()
+    a, b, c = z3.Consts("e2!a e2!b e2!c", V)
+    le, ge, tr = _cmpf("le"), _cmpf("ge"), _tr()
+    dc = z3.Function("deepcopy_Val", V, V)
+    return [
+        z3.ForAll([a], tr(le(a, a)), patterns=[le(a, a)]),
+        z3.ForAll([a, b], z3.Or(tr(le(a, b)), tr(le(b, a))), patterns=[z3.MultiPattern(le(a, b), le(b, a))]),
+        z3.ForAll([a, b], z3.Or(tr(le(a, b)), tr(le(b, a))), patterns=[le(a, b)]),
+        z3.ForAll([a, b, c], z3.Implies(z3.And(tr(le(a, b)), tr(le(b, c))), tr(le(a, c))), patterns=[z3.MultiPattern(le(a, b), le(b, c))]),
+        z3.ForAll([a, b], tr(ge(a, b)) == tr(le(b, a)), patterns=[ge(a, b)]),
+        z3.ForAll([a, b], z3.And(tr(le(dc(a), b)) == tr(le(a, b)), tr(le(b, dc(a))) == tr(le(b, a))), patterns=[le(dc(a), b), le(b, dc(a))]),
+    ]
+
+
+def axioms_E1():
+    """E1: == on recorded values is an equivalence relation, invariant under deepcopy."""
+    V = _V()
+    a, b, c = z3.Consts("e1!a e1!b e1!c", V)
+    eq, tr = _cmpf("eq"), _tr()
+    dc = z3.Function("deepcopy_Val", V, V)
+    return [
+        z3.ForAll([a], tr(eq(a, a)), patterns=[eq(a, a)]),
+        z3.ForAll([a, b], tr(eq(a, b)) == tr(eq(b, a)), patterns=[eq(a, b)]),
+        z3.ForAll([a, b, c], z3.Implies(z3.And(tr(eq(a, b)), tr(eq(b, c))), tr(eq(a, c))), patterns=[z3.MultiPattern(eq(a, b), eq(b, c))]),
+        z3.ForAll([a, b], tr(eq(dc(a), b)) == tr(eq(a, b)), patterns=[eq(dc(a), b)]),
+    ]
+
+
+def s_le(I, a, b):
+    return user_cmp_hook(I, "le", a, b, None)
+
+
+def s_ge(I, a, b):
+    return user_cmp_hook(I, "ge", a, b, None)
+
+
+def s_contains(I, c, x):
+    return user_cmp_hook(I, "contains", c, x, None)
+
+
+def s_same(I, a, b):
+    """identity of abstract values (term equality)"""
+    from .interp import PyList as _PL
+
+    return I.identical(a, b)
+
+
+SPEC_NS.update({"deepcopy": s_deepcopy, "le": s_le, "ge": s_ge, "contains": s_contains, "same": s_same, "undefined": Ellipsis})
+AXIOM_SETS.update({"val": axioms_val, "E2": axioms_E2, "E1": axioms_E1})
+
+
+def s_all_obs(I, obs, body):
+    """forall x. obs(x) => body(x)   (obs: ghost set of observed values)"""
+    from .calls import call_value
+
+    x = z3.Const(I.ctx.fresh_name("ox"), _V())
+    r = call_value(I, body, [SV(x, Abs("Val"))], {})
+    return SV(z3.ForAll([x], z3.Implies(z3.Select(obs.pred, x), I.zbool(r))), BOOL)
+
+
+SPEC_NS["all_obs"] = s_all_obs
